@@ -188,6 +188,7 @@ type FuncContract struct {
 	File      string
 	Schema    string
 	Ghost     []string
+	Locals    map[string]string // alias -> source variable name
 }
 
 func (c *FuncContract) Key() string {
@@ -204,7 +205,9 @@ type TableSpec struct {
 	KeyVar string
 	Props  []string
 	// for every entry key K with function F: F's contract must imply Sem with KeyVar := K
-	Sem  []Clause
+	Sem      []Clause
+	Requires []Clause
+	Modifies []Expr
 	Keys []string // expected key set (optional; if given, must equal the literal's)
 	Line int
 	File string
@@ -286,7 +289,7 @@ func (p *parser) ident() (string, error) {
 }
 
 var itemKeywords = map[string]bool{"spec": true, "axiom": true, "lemma": true, "func": true, "external": true, "iface": true, "table": true, "schema": true}
-var clauseKeywords = map[string]bool{"requires": true, "ensures": true, "modifies": true, "loop": true, "invariant": true, "pure": true, "trusted": true, "props": true, "use": true, "bounded": true, "assumes": true, "allowpanic": true, "nobody": true, "uses": true, "keys": true, "sem": true}
+var clauseKeywords = map[string]bool{"requires": true, "ensures": true, "modifies": true, "loop": true, "invariant": true, "pure": true, "trusted": true, "props": true, "use": true, "bounded": true, "assumes": true, "allowpanic": true, "nobody": true, "uses": true, "keys": true, "sem": true, "local": true}
 
 func parseSpecFile(pkg, file, src string) (*SpecFile, error) {
 	lines := extractSpecLines(src)
@@ -509,13 +512,31 @@ func (p *parser) parseTable() (*TableSpec, error) {
 			if err != nil {
 				return nil, err
 			}
-		} else if p.isKw("sem") {
+		} else if p.isKw("sem") || p.isKw("ensures") {
 			tk := p.next()
 			e, err := p.parseExpr()
 			if err != nil {
 				return nil, err
 			}
 			tb.Sem = append(tb.Sem, Clause{E: e, Line: tk.line})
+		} else if p.isKw("requires") {
+			tk := p.next()
+			e, err := p.parseExpr()
+			if err != nil {
+				return nil, err
+			}
+			tb.Requires = append(tb.Requires, Clause{E: e, Line: tk.line})
+		} else if p.acceptKw("modifies") {
+			for {
+				e, err := p.parseExpr()
+				if err != nil {
+					return nil, err
+				}
+				tb.Modifies = append(tb.Modifies, e)
+				if !p.acceptP(",") {
+					break
+				}
+			}
 		} else if p.acceptKw("keys") {
 			for p.peek().kind == tString {
 				tb.Keys = append(tb.Keys, unquote(p.next().text))
@@ -664,6 +685,22 @@ func (p *parser) parseContract(sf *SpecFile) (*FuncContract, error) {
 			if err != nil {
 				return nil, err
 			}
+		case "local":
+			alias, err := p.ident()
+			if err != nil {
+				return nil, err
+			}
+			if err := p.expectP("="); err != nil {
+				return nil, err
+			}
+			src, err := p.ident()
+			if err != nil {
+				return nil, err
+			}
+			if c.Locals == nil {
+				c.Locals = map[string]string{}
+			}
+			c.Locals[alias] = src
 		case "pure":
 			c.Pure = true
 		case "trusted":
